@@ -395,7 +395,7 @@ Proof. destruct a; cbn; auto. Qed.
 
 
 Lemma same_scope_id_trans a b c : same_scope_id a b -> same_scope_id b c -> same_scope_id a c.
-Proof. unfold same_scope_id. intros (A1 & A2 & A3 & A4) (B1 & B2 & B3 & B4). repeat split; congruence. Qed.
+Proof. unfold same_scope_id. intros (A1 & A2 & A3 & A4) (B1 & B2 & B3 & B4). repeat split; try congruence. destruct B4 as [B4|B4]; [destruct A4 as [A4|A4]; [left|right]; congruence|right; exact B4]. Qed.
 
 (* ---------------------------------------------------------------- frame::next touches the current scope only *)
 Lemma frame_next_effect : forall fuel r c fr r1 c1 f rest,
@@ -407,7 +407,7 @@ Proof.
   cbn [frame_next] in H. rewrite E in H.
   set (p := if at_end f then (FDone, f) else (if at_end (set_pos f (S (f_pos f))) then FDone else FOk, set_pos f (S (f_pos f)))) in H.
   assert (P : exists res0 f1, p = (res0, f1) /\ same_scope_id f f1 /\ f_vars f1 = f_vars f /\ f_exit f1 = f_exit f).
-  { unfold p. destruct (at_end f); eexists; eexists; (split; [reflexivity|]); repeat split. }
+  { unfold p. destruct (at_end f); eexists; eexists; (split; [reflexivity|]); repeat split; left; reflexivity. }
   destruct P as (res0 & f1 & -> & S1 & V1 & X1).
   destruct (f_exit f1) as [b|] eqn:X.
   - destruct (andb (at_end f1) (negb (f_die f1))).
@@ -442,15 +442,17 @@ Proof.
         split; [exact SF|]. apply VK; reflexivity.
       * destruct (top_code_empty _).
         { inversion H; subst; clear H. split; [exact St|]. eexists.
-          split; [rewrite frames_clear_values; apply frames_upd_top; apply frames_upd_top; exact EF|]. split; [exact SF|]. apply VK; reflexivity. }
+          split; [rewrite frames_clear_values; apply frames_upd_top; apply frames_upd_top; exact EF|]. split; [|apply VK; reflexivity].
+          destruct SF as (Q1 & Q2 & Q3 & _). repeat split; [exact Q1|exact Q2|exact Q3|right; reflexivity]. }
         eapply REC; [| | | |exact H];
           [| | |rewrite frames_clear_values; apply frames_upd_top; apply frames_upd_top; exact EF];
-          [reflexivity|reflexivity|repeat split].
+          [reflexivity|reflexivity|repeat split; right; reflexivity].
       * inversion H; subst; clear H. split; [exact St|]. eexists.
         split; [apply frames_upd_top; apply frames_upd_top; exact EF|]. split; [exact SF|]. apply VK; reflexivity.
       * eapply REC; [| | | |exact H];
           [| | |apply frames_upd_top; apply frames_upd_top; exact EF];
-          [reflexivity|reflexivity|repeat split].
+          [destruct b' as [|? [|] ? ?| | | | | | | |]; reflexivity|destruct b' as [|? [|] ? ?| | | | | | | |]; reflexivity
+          |repeat split; try reflexivity; destruct b' as [|? [|] ? ?| | | | | | | |]; cbn; auto].
       * inversion H; subst; clear H. split; [exact St|]. eexists. split; [apply frames_upd_top; exact EF|].
         split; [exact SF|]. apply VK; reflexivity.
     + inversion H; subst; clear H. split; [apply same_store_refl|]. exists f1. split; [reflexivity|]. split; [exact S1|]. left; exact V1.
